@@ -70,6 +70,11 @@ def cases(seed, tier):
         if len(ALGSETS[ai]) == 2 and r2.random() < 0.3:
             # the two group-exchange algorithms are served from different moduli sets: each is measured and rated on its own
             prof['gex']['sizes_by_alg'] = {r2.choice(ALGSETS[ai]): sorted(r2.sample(SIZES, r2.randrange(1, 4)))}
+        r4 = gen.case_rng(seed, ID, i, 'quiet')
+        if r4.random() < 0.1:
+            # the server sends SSH_MSG_IGNORE / SSH_MSG_DEBUG packets ahead of its group and reply messages (allowed at any time): same sizes
+            prof['quiet_packets'] = b''.join(wire.frame(bytes([wire.MSG_IGNORE]) + wire.sstr('x' * r4.choice([0, 2, 90]))) if r4.random() < 0.6 else
+                                             wire.frame(bytes([wire.MSG_DEBUG, 0]) + wire.sstr('dbg') + wire.sstr('')) for _ in range(r4.randrange(1, 3))).hex()
         r3 = gen.case_rng(seed, ID, i, 'after')
         after = None
         if r3.random() < 0.12:
